@@ -1025,6 +1025,538 @@ fn ctx_check(c: &CtxCase, rec: &mut Rec) -> CaseResult {
 }
 
 // ---------------------------------------------------------------------------------
+// 6b. the operator routes over every container kind the library offers
+// ---------------------------------------------------------------------------------
+//
+// Every elementary operator must give, on any CoordinateSet, what it gives on a Vec<Coor4D>
+// holding the tuples that the container documents for get_coord (Coor2D: height 0, epoch NaN;
+// Coor3D: epoch NaN; Coor32: f32 values, 0, NaN; (set, h, t): the fixed height and epoch;
+// (set, t): the fixed epoch), stored back into what the container can hold. For `cart` forward
+// the expectation is additionally taken straight from Ellipsoid::cartesian.
+
+trait Elem: Copy {
+    const NAME: &'static str;
+    fn from4(p: [f64; 4]) -> Self;
+    /// what get_coord documents for an element holding p
+    fn seen(p: [f64; 4]) -> [f64; 4];
+    fn stored(&self) -> Vec<f64>;
+    /// what the element holds after set_coord(r)
+    fn keep(r: [f64; 4]) -> Vec<f64>;
+}
+impl Elem for Coor4D {
+    const NAME: &'static str = "Coor4D";
+    fn from4(p: [f64; 4]) -> Self {
+        Coor4D(p)
+    }
+    fn seen(p: [f64; 4]) -> [f64; 4] {
+        p
+    }
+    fn stored(&self) -> Vec<f64> {
+        self.0.to_vec()
+    }
+    fn keep(r: [f64; 4]) -> Vec<f64> {
+        r.to_vec()
+    }
+}
+impl Elem for Coor3D {
+    const NAME: &'static str = "Coor3D";
+    fn from4(p: [f64; 4]) -> Self {
+        Coor3D([p[0], p[1], p[2]])
+    }
+    fn seen(p: [f64; 4]) -> [f64; 4] {
+        [p[0], p[1], p[2], f64::NAN]
+    }
+    fn stored(&self) -> Vec<f64> {
+        self.0.to_vec()
+    }
+    fn keep(r: [f64; 4]) -> Vec<f64> {
+        r[..3].to_vec()
+    }
+}
+impl Elem for Coor2D {
+    const NAME: &'static str = "Coor2D";
+    fn from4(p: [f64; 4]) -> Self {
+        Coor2D([p[0], p[1]])
+    }
+    fn seen(p: [f64; 4]) -> [f64; 4] {
+        [p[0], p[1], 0.0, f64::NAN]
+    }
+    fn stored(&self) -> Vec<f64> {
+        self.0.to_vec()
+    }
+    fn keep(r: [f64; 4]) -> Vec<f64> {
+        r[..2].to_vec()
+    }
+}
+impl Elem for Coor32 {
+    const NAME: &'static str = "Coor32";
+    fn from4(p: [f64; 4]) -> Self {
+        Coor32([p[0] as f32, p[1] as f32])
+    }
+    fn seen(p: [f64; 4]) -> [f64; 4] {
+        [p[0] as f32 as f64, p[1] as f32 as f64, 0.0, f64::NAN]
+    }
+    fn stored(&self) -> Vec<f64> {
+        vec![self.0[0] as f64, self.0[1] as f64]
+    }
+    fn keep(r: [f64; 4]) -> Vec<f64> {
+        vec![r[0] as f32 as f64, r[1] as f32 as f64]
+    }
+}
+
+const CONT_N: usize = 8;
+const SHAPES: [&str; 3] = ["Vec", "array", "&mut slice"];
+const WRAPS: [&str; 3] = ["", "(set, h, t)", "(set, t)"];
+
+struct ContOut {
+    label: String,
+    seen: Vec<[f64; 4]>,
+    stored: Vec<Vec<f64>>,
+    count: usize,
+}
+
+fn cont_apply(ctx: &Minimal, op: OpHandle, fwd: bool, def: &str, set: &mut dyn CoordinateSet) -> Result<usize, Failure> {
+    match try_apply(ctx, op, dir_of(fwd), set) {
+        Err(p) => fail(format!("panic-apply@{}", p.sig()), format!("applying '{def}' ({}) panics: {} at {}:{}", dirname(fwd), p.msg, p.file, p.line)),
+        Ok(Err(e)) => fail("apply-error-container", format!("apply of '{def}' returned an error: {e:?}")),
+        Ok(Ok(n)) => Ok(n),
+    }
+}
+
+#[allow(clippy::too_many_arguments)]
+fn cont_run<T: Elem>(ctx: &Minimal, op: OpHandle, fwd: bool, def: &str, shape: usize, wrap: usize, pts: &[[f64; 4]], h: f64, t: f64) -> Result<ContOut, Failure>
+where
+    Vec<T>: CoordinateSet,
+    [T; CONT_N]: CoordinateSet,
+    for<'a> &'a mut [T]: CoordinateSet,
+{
+    let mut elems: Vec<T> = pts.iter().map(|p| T::from4(*p)).collect();
+    let seen: Vec<[f64; 4]> = pts
+        .iter()
+        .map(|p| {
+            let b = T::seen(*p);
+            match wrap {
+                1 => [b[0], b[1], h, t],
+                2 => [b[0], b[1], b[2], t],
+                _ => b,
+            }
+        })
+        .collect();
+    let count;
+    match shape {
+        0 => match wrap {
+            1 => {
+                let mut w = (elems, h, t);
+                count = cont_apply(ctx, op, fwd, def, &mut w)?;
+                elems = w.0;
+            }
+            2 => {
+                let mut w = (elems, t);
+                count = cont_apply(ctx, op, fwd, def, &mut w)?;
+                elems = w.0;
+            }
+            _ => count = cont_apply(ctx, op, fwd, def, &mut elems)?,
+        },
+        1 => {
+            let mut a: [T; CONT_N] = match elems[..].try_into() {
+                Ok(a) => a,
+                Err(_) => vfail!("harness-bad-container-case", "a container case needs exactly {CONT_N} points"),
+            };
+            match wrap {
+                1 => {
+                    let mut w = (a, h, t);
+                    count = cont_apply(ctx, op, fwd, def, &mut w)?;
+                    a = w.0;
+                }
+                2 => {
+                    let mut w = (a, t);
+                    count = cont_apply(ctx, op, fwd, def, &mut w)?;
+                    a = w.0;
+                }
+                _ => count = cont_apply(ctx, op, fwd, def, &mut a)?,
+            }
+            elems = a.to_vec();
+        }
+        _ => {
+            let mut sl: &mut [T] = &mut elems[..];
+            match wrap {
+                1 => {
+                    let mut w = (sl, h, t);
+                    count = cont_apply(ctx, op, fwd, def, &mut w)?;
+                }
+                2 => {
+                    let mut w = (sl, t);
+                    count = cont_apply(ctx, op, fwd, def, &mut w)?;
+                }
+                _ => count = cont_apply(ctx, op, fwd, def, &mut sl)?,
+            }
+        }
+    }
+    let label = if wrap == 0 { format!("{} of {}", SHAPES[shape], T::NAME) } else { format!("{} of {} in {}", SHAPES[shape], T::NAME, WRAPS[wrap]) };
+    Ok(ContOut { label, seen, stored: elems.iter().map(|e| e.stored()).collect(), count })
+}
+
+#[derive(Clone, Copy, Debug, Serialize, Deserialize, PartialEq)]
+enum CDom {
+    Geo,
+    GeoStrip,
+    Cartesian,
+    Plane,
+    LatDegLon,
+    LatDegHeight,
+    Geodesic,
+    GeodesicInv,
+    Any,
+}
+
+/// (definition template, direction, input domain); `{E}` = "" or " ellps=<name>"
+fn cont_ops() -> Vec<(&'static str, bool, CDom)> {
+    use CDom::*;
+    let mut v = vec![
+        ("cart{E}", true, Geo),
+        ("cart{E}", false, Cartesian),
+        ("cart inv{E}", false, Geo),
+        ("cart inv{E}", true, Cartesian),
+        ("geodesic{E}", true, Geodesic),
+        ("geodesic{E}", false, GeodesicInv),
+        ("geodesic reversible{E}", false, GeodesicInv),
+        ("tmerc lon_0=9 k_0=0.9996 x_0=500000{E}", true, GeoStrip),
+        ("tmerc lon_0=9 k_0=0.9996 x_0=500000{E}", false, Plane),
+        ("btmerc lon_0=9 k_0=0.9996 x_0=500000{E}", true, GeoStrip),
+        ("btmerc lon_0=9 k_0=0.9996 x_0=500000{E}", false, Plane),
+        ("utm zone=32{E}", true, GeoStrip),
+        ("butm zone=32{E}", false, Plane),
+        ("axisswap order=2,1", true, Any),
+        ("axisswap order=-1", true, Any),
+        ("axisswap order=-3,1,2", false, Any),
+        ("axisswap order=2,-1,4,3", true, Any),
+        ("unitconvert xy_in=deg xy_out=rad", true, Any),
+        ("unitconvert xy_in=us-ft z_in=ft xy_out=km", false, Any),
+        ("adapt from=neuf_deg", true, Any),
+        ("adapt to=neuf_deg", true, Any),
+        ("adapt from=sedf_gon to=wnuf_deg", false, Any),
+        ("adapt from=ufen_deg", true, Any),
+        ("gravity{E}", true, LatDegHeight),
+        ("gravity welmec{E}", true, LatDegHeight),
+        ("gravity grs67 zero-height{E}", true, LatDegHeight),
+        ("gravity jeffreys{E}", true, LatDegHeight),
+        ("gravity cassinis{E}", true, LatDegHeight),
+        ("curvature prime{E}", true, LatDegLon),
+        ("curvature meridian{E}", true, LatDegLon),
+        ("curvature gaussian{E}", true, LatDegLon),
+        ("curvature mean{E}", true, LatDegLon),
+        ("curvature azimuthal{E}", true, LatDegLon),
+    ];
+    for (f, i) in [
+        ("latitude geocentric{E}", "latitude geocentric{E}"),
+        ("latitude reduced{E}", "latitude parametric{E}"),
+        ("latitude conformal{E}", "latitude conformal{E}"),
+        ("latitude rectifying{E}", "latitude rectifying{E}"),
+        ("latitude authalic{E}", "latitude authalic{E}"),
+    ] {
+        v.push((f, true, Geo));
+        v.push((i, false, Geo));
+    }
+    v
+}
+
+fn cdom_point(dom: CDom, r: [f64; 4]) -> [f64; 4] {
+    let lon = (r[0] - 0.5) * 360.0;
+    let lat = (r[1] - 0.5) * 178.0;
+    let h = -250.0 + 9000.0 * r[2];
+    let t = 1990.0 + 40.0 * r[3];
+    match dom {
+        CDom::Geo => [lon.to_radians(), lat.to_radians(), h, t],
+        CDom::GeoStrip => [(9.0 + (r[0] - 0.5) * 6.0).to_radians(), lat.to_radians(), h, t],
+        CDom::Cartesian => {
+            let e = El::grs80().cartesian(lon.to_radians(), lat.to_radians(), h);
+            [e[0], e[1], e[2], t]
+        }
+        CDom::Plane => [500_000.0 + (r[0] - 0.5) * 4.0e5, (r[1] - 0.5) * 1.8e7, h, t],
+        CDom::LatDegLon => [lat, lon, h, t],
+        CDom::LatDegHeight => [lat, h, lon, t],
+        CDom::Geodesic => [lat, lon, 360.0 * r[2], 1.0 + 1.5e7 * r[3]],
+        CDom::GeodesicInv => [lat, lon, (r[2] - 0.5) * 170.0, (r[3] - 0.5) * 340.0],
+        CDom::Any => [-1000.0 + 2000.0 * r[0], -1000.0 + 2000.0 * r[1], -1000.0 + 2000.0 * r[2], -1000.0 + 2000.0 * r[3]],
+    }
+}
+
+#[derive(Clone, Debug, Serialize, Deserialize)]
+struct ContCase {
+    def: String,
+    ell: String,
+    fwd: bool,
+    dom: CDom,
+    /// fixed height and epoch of the (set, h, t) and (set, t) adapters
+    h: F,
+    t: F,
+    /// exactly CONT_N tuples (what a 4-D container would hold)
+    pts: Vec<P4>,
+}
+
+fn cont_strategy() -> BoxedStrategy<ContCase> {
+    let ops = cont_ops();
+    let h = prop_oneof![1 => Just(0.0f64), 4 => -250.0f64..100_000.0, 1 => Just(1234.5f64)];
+    let t = prop_oneof![2 => Just(2020.0f64), 2 => 1990.0f64..2030.0, 1 => Just(f64::NAN)];
+    let raw = prop::collection::vec([0.0f64..1.0, 0.0f64..1.0, 0.0f64..1.0, 0.0f64..1.0], CONT_N..=CONT_N);
+    (any::<u16>(), ell_name(), prop::bool::weighted(0.85), h, t, raw)
+        .prop_map(move |(k, ell, explicit, h, t, raw)| {
+            let (tpl, fwd, dom) = ops[pick(k, ops.len())];
+            let def = tpl.replace("{E}", &if explicit || ell != "GRS80" { format!(" ellps={ell}") } else { String::new() });
+            let pts = raw.iter().map(|r| { let p = cdom_point(dom, *r); p4(p[0], p[1], p[2], p[3]) }).collect();
+            ContCase { def, ell, fwd, dom, h: F(h), t: F(t), pts }
+        })
+        .boxed()
+}
+
+fn cont_check(c: &ContCase, rec: &mut Rec) -> CaseResult {
+    vensure!(c.pts.len() == CONT_N, "harness-bad-container-case", "a container case needs exactly {CONT_N} points");
+    let (e, _) = lib_ell(&c.ell)?;
+    let uses_ell = c.def.contains("ellps=") || c.ell == "GRS80";
+    let pts: Vec<[f64; 4]> = c.pts.iter().map(|p| [p[0].0, p[1].0, p[2].0, p[3].0]).collect();
+    let mut ctx = Minimal::new();
+    let op = mk_op(&mut ctx, &c.def)?;
+    // cart forward = geographic -> cartesian: "cart" applied Fwd or "cart inv" applied Inv
+    let name = c.def.split_whitespace().next().unwrap_or("");
+    let is_cart_fwd = name == "cart" && (c.def.split_whitespace().any(|w| w == "inv") != c.fwd);
+    let (h, t) = (c.h.0, c.t.0);
+    for inner in 0..4usize {
+        for shape in 0..3usize {
+            for wrap in 0..3usize {
+                let out = match inner {
+                    0 => cont_run::<Coor4D>(&ctx, op, c.fwd, &c.def, shape, wrap, &pts, h, t)?,
+                    1 => cont_run::<Coor3D>(&ctx, op, c.fwd, &c.def, shape, wrap, &pts, h, t)?,
+                    2 => cont_run::<Coor2D>(&ctx, op, c.fwd, &c.def, shape, wrap, &pts, h, t)?,
+                    _ => cont_run::<Coor32>(&ctx, op, c.fwd, &c.def, shape, wrap, &pts, h, t)?,
+                };
+                // reference route: the same operator on a Vec<Coor4D> holding the documented tuples
+                let mut reference: Vec<Coor4D> = out.seen.iter().map(|p| Coor4D(*p)).collect();
+                let nref = run_op(&ctx, op, c.fwd, &mut reference, &c.def)?;
+                let keep = |r: [f64; 4]| -> Vec<f64> {
+                    match inner {
+                        0 => Coor4D::keep(r),
+                        1 => Coor3D::keep(r),
+                        2 => Coor2D::keep(r),
+                        _ => Coor32::keep(r),
+                    }
+                };
+                for i in 0..CONT_N {
+                    let want = keep(reference[i].0);
+                    let same = want.len() == out.stored[i].len() && want.iter().zip(&out.stored[i]).all(|(a, b)| bits_eq(*a, *b));
+                    vensure!(same, "operator-result-depends-on-container",
+                        "'{}' {} on a {} (fixed h = {h:?}, t = {t:?}): tuple {i}, which the container presents as {:?}, becomes {:?}; the same operator on a Vec<Coor4D> holding that tuple gives {:?} (stored part {:?})",
+                        c.def, dirname(c.fwd), out.label, out.seen[i], out.stored[i], reference[i].0, want);
+                    if is_cart_fwd && uses_ell {
+                        let m = e.cartesian(&Coor4D(out.seen[i]));
+                        let want = keep(m.0);
+                        let same = want.iter().zip(&out.stored[i]).all(|(a, b)| bits_eq(*a, *b));
+                        vensure!(same, "cart-fwd-container-vs-method",
+                            "'{}' {} on a {} (fixed h = {h:?}, t = {t:?}): tuple {i} = {:?} becomes {:?}, Ellipsoid::cartesian gives {:?} (must be identical in the stored elements)",
+                            c.def, dirname(c.fwd), out.label, out.seen[i], out.stored[i], m.0);
+                    }
+                }
+                vensure!(out.count == nref, "operator-count-depends-on-container",
+                    "'{}' {} on a {} reports {} successes, on the Vec<Coor4D> of the same tuples {nref}", c.def, dirname(c.fwd), out.label, out.count);
+                rec.count("container_applications", 1);
+                if inner != 0 || wrap != 0 {
+                    rec.nontrivial(&(&c.def, c.fwd, inner, shape, wrap, h != 0.0));
+                }
+            }
+        }
+    }
+    rec.class(name);
+    rec.class(if h != 0.0 { "adapter height != 0" } else { "adapter height == 0" });
+    rec.count("comparisons", (36 * CONT_N) as u64);
+    Ok(())
+}
+
+// ---------------------------------------------------------------------------------
+// 6c. Minimal == Plain == GridCtx over a history of instantiations in ONE context each
+// ---------------------------------------------------------------------------------
+
+#[derive(Clone, Debug, Serialize, Deserialize)]
+struct HistCase {
+    /// definitions instantiated, in this order, in one long-lived context of each kind
+    seq: Vec<String>,
+    pts: Vec<P4>,
+}
+
+const MACROS: [(&str, &str); 8] = [
+    ("geo:in", "adapt from=neuf_deg"),
+    ("geo:out", "adapt to=neuf_deg"),
+    ("gis:in", "adapt from=enuf_deg"),
+    ("gis:out", "adapt to=enuf_deg"),
+    ("neu:in", "adapt from=neuf"),
+    ("neu:out", "adapt to=neuf"),
+    ("enu:in", "adapt from=enuf"),
+    ("enu:out", "adapt to=enuf"),
+];
+const USER_MACROS: [(&str, &str); 3] = [("c14:plus", "addone"), ("c14:twice", "addone | addone"), ("c14:east", "helmert x=1 y=2 z=3")];
+
+/// families: a macro, its inverted spellings, its body text in several layouts and inverted
+fn hist_families() -> Vec<Vec<String>> {
+    let mut fams = vec![];
+    for (m, body) in MACROS.iter().chain(USER_MACROS.iter()) {
+        let (name, args) = body.split_once(' ').unwrap_or((body, ""));
+        let mut f = vec![
+            m.to_string(),
+            format!("{m} inv"),
+            format!("inv {m}"),
+            format!("{m} inv=true"),
+            body.to_string(),
+            format!("  {}  ", body.replace(' ', "   ")),
+        ];
+        if !body.contains('|') {
+            f.push(format!("{name} inv {args}").trim().to_string());
+            f.push(format!("{body} inv"));
+        }
+        fams.push(f);
+    }
+    fams
+}
+
+fn hist_others() -> Vec<String> {
+    [
+        "cart", "cart inv", "inv cart", "cart ellps=intl", "cart ellps=intl inv", "utm zone=32", "utm inv zone=32", "utm zone=33", "utm zone=32 ellps=intl",
+        "tmerc lon_0=9", "btmerc lon_0=9", "merc", "merc inv", "noop", "unitconvert xy_in=deg xy_out=rad", "unitconvert inv xy_in=deg xy_out=rad",
+        "axisswap order=2,1", "axisswap order=2,-1 inv", "geo:in | cart", "geo:in | cart | helmert x=1 | cart inv | geo:out", "gis:in | utm zone=32 | neu:out",
+        "geo:in inv | geo:in", "latitude geocentric", "latitude geocentric inv", "nosuchoperator", "utm",
+    ]
+    .iter()
+    .map(|s| s.to_string())
+    .collect()
+}
+
+fn hist_strategy(maxlen: usize) -> BoxedStrategy<HistCase> {
+    let fams = hist_families();
+    let others = hist_others();
+    let nf = fams.len();
+    // (family or "other", member) draws; a case concentrates on two families so that a macro,
+    // its inverted forms and its body text meet in one context
+    let item = (0u8..10, any::<u16>(), any::<u16>());
+    (any::<u16>(), any::<u16>(), prop::collection::vec(item, 2..=maxlen))
+        .prop_map(move |(fa, fb, items)| {
+            let (fa, fb) = (pick(fa, nf), pick(fb, nf));
+            let seq = items
+                .into_iter()
+                .map(|(w, a, b)| match w {
+                    0..=3 => fams[fa][pick(b, fams[fa].len())].clone(),
+                    4..=5 => fams[fb][pick(b, fams[fb].len())].clone(),
+                    6 => {
+                        let f = &fams[pick(a, nf)];
+                        f[pick(b, f.len())].clone()
+                    }
+                    _ => others[pick(b, others.len())].clone(),
+                })
+                .collect();
+            let pts = vec![p4(0.2, 0.9, 10.0, 2020.0), p4(-1.1, 0.3, -5.0, 2000.0), p4(3.0, -1.5, 0.0, 1999.0), p4(55.0, 12.0, 100.0, 2010.5), p4(f64::NAN, 1.0, 2.0, 3.0)];
+            HistCase { seq, pts }
+        })
+        .boxed()
+}
+
+/// behaviour of one handle: Ok((fwd result, count, inv result, count)) or the error text
+type Behaviour = Result<(Vec<Coor4D>, usize, Vec<Coor4D>, usize), String>;
+
+fn hist_register<C: Context>(ctx: &mut C) {
+    for (n, b) in USER_MACROS {
+        ctx.register_resource(n, b);
+    }
+}
+
+fn behaviour<C: Context>(ctx: &C, op: OpHandle, def: &str, pts: &[P4]) -> Result<Behaviour, Failure> {
+    let mut f = c4s(pts);
+    let nf = run_op(ctx, op, true, &mut f, def)?;
+    let mut b = c4s(pts);
+    let nb = run_op(ctx, op, false, &mut b, def)?;
+    Ok(Ok((f, nf, b, nb)))
+}
+
+fn same_behaviour(a: &Behaviour, b: &Behaviour) -> bool {
+    match (a, b) {
+        (Ok(x), Ok(y)) => vec_bits_eq(&x.0, &y.0) && x.1 == y.1 && vec_bits_eq(&x.2, &y.2) && x.3 == y.3,
+        (Err(_), Err(_)) => true,
+        _ => false,
+    }
+}
+
+fn show_behaviour(b: &Behaviour) -> String {
+    match b {
+        Ok(x) => format!("Fwd -> {} (count {}), Inv -> {} (count {})", fmt_c4(&x.0[0]), x.1, fmt_c4(&x.2[0]), x.3),
+        Err(e) => format!("Err({e})"),
+    }
+}
+
+fn hist_instantiate<C: Context>(ctx: &mut C, who: &str, def: &str, pts: &[P4]) -> Result<(Option<OpHandle>, Behaviour), Failure> {
+    match try_op(ctx, def) {
+        Err(p) => fail(format!("panic-instantiate@{}", p.sig()), format!("{who}: instantiating '{def}' panics: {} at {}:{}", p.msg, p.file, p.line)),
+        Ok(Err(e)) => Ok((None, Err(format!("{e:?}")))),
+        Ok(Ok(op)) => Ok((Some(op), behaviour(ctx, op, def, pts)?)),
+    }
+}
+
+fn hist_check(c: &HistCase, rec: &mut Rec) -> CaseResult {
+    let mut m = Minimal::new();
+    let mut p = Plain::new();
+    let mut g = GridCtx::new();
+    hist_register(&mut m);
+    hist_register(&mut p);
+    hist_register(&mut g);
+    // (definition, reference behaviour from a fresh context, handles in the three long-lived contexts)
+    let mut live: Vec<(String, Behaviour, [Option<OpHandle>; 3])> = vec![];
+    for (k, def) in c.seq.iter().enumerate() {
+        // reference: a fresh Minimal that has seen nothing else
+        let mut fresh = Minimal::new();
+        hist_register(&mut fresh);
+        let (_, reference) = hist_instantiate(&mut fresh, "fresh Minimal", def, &c.pts)?;
+        let (hm, bm) = hist_instantiate(&mut m, "Minimal", def, &c.pts)?;
+        let (hp, bp) = hist_instantiate(&mut p, "Plain", def, &c.pts)?;
+        let (hg, bg) = hist_instantiate(&mut g, "GridCtx", def, &c.pts)?;
+        for (who, b) in [("Minimal", &bm), ("Plain", &bp), ("GridCtx (user Context)", &bg)] {
+            vensure!(same_behaviour(&reference, b), "context-history-changes-behaviour",
+                "'{def}' instantiated in a {who} context that had already instantiated {:?} behaves differently from the same definition in a fresh context: {} vs fresh {} (probe {})",
+                &c.seq[..k], show_behaviour(b), show_behaviour(&reference), fmt_c4(&c4(&c.pts[0])));
+        }
+        live.push((def.clone(), reference, [hm, hp, hg]));
+    }
+    // every earlier handle must still behave as when it was created
+    for (def, reference, handles) in &live {
+        for (i, who) in ["Minimal", "Plain", "GridCtx (user Context)"].iter().enumerate() {
+            let Some(h) = handles[i] else { continue };
+            let b = match i {
+                0 => behaviour(&m, h, def, &c.pts)?,
+                1 => behaviour(&p, h, def, &c.pts)?,
+                _ => behaviour(&g, h, def, &c.pts)?,
+            };
+            vensure!(same_behaviour(reference, &b), "context-handle-changed-later",
+                "the handle of '{def}' in the {who} context behaves differently after the whole history {:?}: {} vs originally {}", c.seq, show_behaviour(&b), show_behaviour(reference));
+        }
+    }
+    rec.class(&format!("history of {}", c.seq.len().min(12)));
+    rec.count("instantiations", 4 * c.seq.len() as u64);
+    rec.count("comparisons", (6 * c.seq.len() * 2 * c.pts.len()) as u64);
+    // non-trivial: some definition is instantiated after a different spelling of the same family
+    // (macro / inverted macro / body text) or repeated
+    let fams = hist_families();
+    let fam_of = |d: &String| fams.iter().position(|f| f.contains(d));
+    let mut interesting = false;
+    for (i, d) in c.seq.iter().enumerate() {
+        if let Some(f) = fam_of(d) {
+            if c.seq[..i].iter().any(|e| fam_of(e) == Some(f)) {
+                interesting = true;
+            }
+        }
+    }
+    if interesting {
+        rec.nontrivial(&c.seq);
+        if c.seq.iter().enumerate().any(|(i, d)| MACROS.iter().chain(USER_MACROS.iter()).any(|(mname, body)| d == body && c.seq[..i].iter().any(|e| e.contains(mname) && e.contains("inv")))) {
+            rec.count("body_after_inverted_macro", 1);
+        }
+    }
+    Ok(())
+}
+
+// ---------------------------------------------------------------------------------
 // 7. series based auxiliary latitudes / meridian arcs vs closed forms / quadrature
 // ---------------------------------------------------------------------------------
 
@@ -1159,6 +1691,7 @@ fn main() {
     run.assume("unitconvert vs adapt: 'exactly' is read as 'to the rounding of two separately defined conversion constants': 2 ulp for deg/gon<->rad, 4 ulp for deg<->gon; third and fourth element bit-identical");
     run.assume("rectifying latitude as an angle is not compared (scaled by the normalised meridian arc unit, owned by C06); its product with a is compared as the meridian arc");
     run.assume("Bowring's meridian formulas (documented as truncated after n^4) are compared with quadrature at 0.5 a n^4 (arc) and 3 a n^4 (inverse) + 1e-7 m, not at 1e-6 m ('to the accuracy of the weaker one')");
+    run.assume("containers: the expected input tuple of a container is what its documentation states for get_coord (Coor2D: height 0, epoch NaN; Coor3D: epoch NaN; Coor32: f32 values; (set, h, t) and (set, t): the fixed values), written down in the harness, not read through the library; only single-step operators (2-D/3-D containers drop Z/T between pipeline steps by design)");
     run.assume("contexts: GridCtx (harness user Context) stands for 'any other Context implementation'; grid operators are exercised only through @null / optional-missing / missing-file definitions (no files)");
 
     // coverage of the hook's operator list by the context catalogue
@@ -1175,7 +1708,7 @@ fn main() {
         run.note("uncovered_operators", serde_json::json!(uncovered));
     }
 
-    let n = run.scale(45_000, 700_000);
+    let n = run.scale(30_000, 700_000);
     run.section(
         "tmerc-btmerc",
         "47 ellipsoids x (lon_0, k_0, x_0, y_0) x up to 48 points with |dlon| <= 3 deg, any latitude (classes: equator, poles, central meridian, strip edge), lat_0 = 0; forward and inverse compared on the ground at 1 mm; non-trivial = off the central meridian and the equator; distinct by (ellipsoid, 0.25 deg cell)",
@@ -1191,7 +1724,7 @@ fn main() {
         || tm_strategy(true),
         tm_check,
     );
-    let n = run.scale(45_000, 700_000);
+    let n = run.scale(30_000, 700_000);
     run.section(
         "cart-vs-ellipsoid",
         "47 ellipsoids x up to 48 generic points (lon, lat, h in -10..100 km scaled by a, t incl. NaN) + up to 8 points 1e-16..3e-3 rad from the axis; forward bit-identical with Ellipsoid::cartesian, inverse within 1 mm of Ellipsoid::geographic; non-trivial = off equator, poles and the 0/90/180 meridians",
@@ -1199,7 +1732,7 @@ fn main() {
         cart_strategy,
         cart_check,
     );
-    let n = run.scale(45_000, 700_000);
+    let n = run.scale(30_000, 700_000);
     run.section(
         "operator-vs-method",
         "latitude (6 kinds, fwd+inv), curvature (5 kinds), geodesic (plain/reversible, direct+inverse), gravity (5 formulas + default, with/without zero-height) operators on 47 ellipsoids (and the implicit default) vs the Ellipsoid trait methods after the unit/order conversions of the operator; <= 4 ulp",
@@ -1249,7 +1782,24 @@ fn main() {
             ctx_check,
         );
     }
-    let n = run.scale(20_000, 300_000);
+    let n = run.scale(5_000, 80_000);
+    run.section(
+        "operator-containers",
+        "40+ elementary operator definitions of the route pairs (cart, latitude, curvature, geodesic, gravity, tmerc/btmerc/utm/butm, axisswap, unitconvert, adapt; 47 ellipsoids) x direction x 8 tuples x all 36 container kinds (Vec / array / &mut slice of Coor4D, Coor3D, Coor2D, Coor32, each plain, in (set, h, t) and in (set, t), h mostly != 0, t incl. NaN): stored result and count must equal, bit for bit, the operator on a Vec<Coor4D> of the tuples the container documents (height 0 / epoch NaN / f32 / fixed values), and for cart forward also Ellipsoid::cartesian of those tuples; non-trivial = not a plain 4-D container",
+        n,
+        cont_strategy,
+        cont_check,
+    );
+    let n = run.scale(4_000, 60_000);
+    let maxlen = if run.is_thorough() { 24 } else { 12 };
+    run.section(
+        "context-histories",
+        "sequences of 2..12 (thorough 24) definitions instantiated in ONE long-lived Minimal, Plain and user Context each: the 8 built-in and 3 user macros plain / 'inv' in three spellings / as their body text in two layouts / body inverted, concentrated on two families per case, mixed with other built-ins, pipelines, repeats and rejected definitions; after every instantiation the new handle must behave bit for bit (both directions, counts, Ok/Err) like the same definition in a fresh context, and at the end every earlier handle is re-checked; non-trivial = a definition follows another spelling of the same family",
+        n,
+        move || hist_strategy(maxlen),
+        hist_check,
+    );
+    let n = run.scale(15_000, 300_000);
     run.section(
         "series-vs-closed-form",
         "47 ellipsoids x up to 32 latitudes |lat| <= 89.9 deg: conformal and authalic series (both directions) vs closed forms (2e-12 rad, property level 1e-11), geocentric/reduced vs closed forms; three meridian arc series (a x rectifying series, its inverse, tmerc on its central meridian both directions, meridian quadrant) vs Gauss-Legendre quadrature of M (1e-7 m, property level 1e-6); Bowring's formulas vs quadrature (0.5 / 3 a n^4)",
